@@ -6,10 +6,9 @@ ROOT = os.path.dirname(os.path.dirname(os.path.abspath(__file__)))
 SESSION_NOTE = ("Trusted: Coq kernel, extraction+driver and harness for the correspondence. Two session models: M2 (Session/) assumes whole-packet "
                 "never-blocking I/O; M2' (Session2/) adds the client's output queue, a transport that accepts writes, refuses them (BlockingIOError) or FAILS HARD "
                 "(OSError: the connection is torn down inside the write, publish() takes its message out of the window again, the CONNACK retransmission loop stops), "
-                "and reconnect() dropping the queue (events distinguish handed-over from written packets). On M2' the structural invariant of the message stores "
-                "and the queue (window counter, no idle slot, ids, order), the receiver refinement (C03) and the queue discipline (FIFO) are proved for EVERY history incl. "
-                "hard write failures; the trace checkers of C01/C02/C12/C13 are proved for histories without hard write failures, and on histories with them they are "
-                "applied to the traces recorded from the implementation and compared with the model (correspondence + oracle, not proof). Both models assume a "
+                "and reconnect() dropping the queue (events distinguish handed-over from written packets). On M2' every statement (C01, C02, C03, C12 window/handed/queue, "
+                "C13 handed/written, the queue discipline, the structural invariant) is proved for EVERY conforming history, hard write failures included "
+                "(Session2/Fail.v characterises the operations on a dead socket through the two-mode operations, Full.v lifts the per-operation lemmas). Both models assume a "
                 "protocol-conforming broker (Model.conforming: acknowledgements only for written packets), callbacks on_publish/on_connect that do not raise, and "
                 "top-level (not nested) API calls; partial writes are C06's subject.")
 SESSION_TECH = "Coq proof: relational invariant between an executable session model and a trace checker, by induction over all operation histories; model validated by differential execution against the real client"
